@@ -131,6 +131,9 @@ def check_doc(case):
         diff = X.same(g[agn], X.render(X.T(base, agn)))
         if diff:
             raise Bad('agnostic-doc', f'{agn}: {diff}\n--- source\n{text}--- {agn}\n{out[agn]}')
+        # the file entry point (a '.krn' path): the requested encoding, not one guessed from the file name
+        if K.via_dump_file(kdoc, expect=out[agn], encoding=K.ENCODINGS[agn]) != out[agn]:
+            raise Bad('dump-file', f'kernpy.dump(encoding={agn}) writes a different text than dumps returns')
     # the same under category selections: the agnostic text is still the kern text with the pitch letters converted
     from .. import cats
     TC = kp.TokenCategory
